@@ -315,7 +315,7 @@ class H:
         """reachability witness: the path up to here must be feasible"""
         if self.sym:
             r = self.E.feasible()
-            self.results.append((label, "witness" if r == "sat" else "vacuous"))
+            self.results.append((label, "witness" if r == "sat" else ("vacuous" if r == "unsat" else "witness_unknown")))
         else:
             self.results.append((label, "ok"))
 
@@ -370,7 +370,8 @@ def run_obligation(prop, hname, fn, cfg, seed=0, timeout_ms=20000, max_paths=200
     def replayer(inputs):
         sym.set_engine(None)
         try:
-            return run_concrete(fn, cfg, inputs)
+            with shim.unpatched():
+                return run_concrete(fn, cfg, inputs)
         finally:
             sym.set_engine(E)
 
@@ -429,6 +430,8 @@ def run_obligation(prop, hname, fn, cfg, seed=0, timeout_ms=20000, max_paths=200
     res.update(paths=st["paths"], decisions=st["decisions"], forks=st["forks"], queries=dict(st["queries"]),
                solver_s=round(st["solver_s"], 3), kernels=sorted(st["kernels"]), axioms=st["axioms"],
                domain=sorted(st["domain_assumptions"]))
+    need_witness = any("witness_unknown" in d for d in res["labels"].values()) and not any(
+        "witness" in d for d in res["labels"].values())
     if validate and res["status"] in ("proved", "inconclusive"):
         # validation of the encoding: the same oracle on the real code with real numpy/scipy
         ok, why = run_concrete(fn, cfg, None, seed=seed)
@@ -437,5 +440,7 @@ def run_obligation(prop, hname, fn, cfg, seed=0, timeout_ms=20000, max_paths=200
             res["status"] = "violated"
             res["violation"] = {"label": why.get("failed"), "inputs": why.get("inputs"),
                                 "detail": "found by concrete validation run: " + str(why.get("detail"))[:1500]}
+    if need_witness and res["status"] == "proved" and res.get("validation") != "ok":
+        res["status"] = "vacuous"  # neither the solver nor a concrete run reached the assertions
     res["wall_s"] = round(time.time() - t0, 3)
     return res
